@@ -8,6 +8,7 @@ import (
 )
 
 type c07RW struct {
+	bufLimit   int // >0: offering a read buffer longer than this is a violation (limit scenario)
 	data       []byte
 	pos        int
 	reads      int
@@ -25,6 +26,9 @@ func (r *c07RW) Read(p []byte) (int, error) {
 	r.reads++
 	if r.pos+len(p) > r.limit {
 		r.overOffer = true
+	}
+	if r.bufLimit > 0 {
+		verifAssert("rejected-without-buffering", len(p) <= r.bufLimit)
 	}
 	if r.faultAfter >= 0 && idx == r.faultAfter {
 		return 0, errC07Fault
@@ -139,13 +143,15 @@ func VerifC07_Limit(k int) {
 	need := 8 + c07Padded(L)
 	verifAssume(L >= 0 && need > max)
 	body := verifNondetBytes("body", 24)
-	rw := &c07RW{data: append(hdr, body...), maxReads: k, limit: 1 << 40, endOfData: true, faultAfter: -1}
+	rw := &c07RW{data: append(hdr, body...), maxReads: k, limit: 1 << 40, endOfData: true, faultAfter: -1, bufLimit: 512}
+	verifAllocLimit("rejected-without-buffering", 512)
 	s := NewStream(rw, max)
 	var got c07Capture
 	err := s.Recv(&got)
 	verifAssert("oversized-announcement-rejected", err != nil)
 	verifAssert("rejected-before-reading-the-body", rw.pos <= 8)
 	verifAssert("rejected-without-buffering", verifMaxAlloc() <= 512)
+	verifAssert("rejected-with-the-size-error", IsErrEncoding(err))
 }
 
 // VerifC07_LimitOK: announced size within the limit is accepted as usual.
